@@ -22,6 +22,7 @@ META = {
         "distinct = distinct (descriptor, history) observations"
     ),
     "assumptions": ["canonical outcome = class/str/accessors of returned objects, or exception class + message", "each history runs in its own fresh interpreter"],
+    "prelude": False,
     "min_distinct": {"quick": 30000, "thorough": 600000},
 }
 SIZES = {"quick": dict(perms=16, firsts=40, pool="quick"), "thorough": dict(perms=200, firsts=400, pool="thorough")}
@@ -111,6 +112,7 @@ class Recorder:
 def run_shard(shard, out_base):
     mon = Mon("C15")
     S = judge.lib()
+    calls.capture_warnings()
     from schwifty import registry  # noqa: PLC0415
 
     tier = shard["tier"]
